@@ -70,3 +70,21 @@ Theorem C10_ligero_column_relation :
     ip b (col j (map (encode omega n_ext) rows)) = nth j (encode omega n_ext (rowcomb rows n_cols b)) 0.
 Proof. exact @column_check_complete. Qed.
 Print Assumptions C10_ligero_column_relation.
+
+(* any encoder satisfying the column relation (every linear code does: C10_generator_matrix_column_relation) makes the
+   honest opening pass the verifier's loops *)
+Theorem C10_lincode_complete_from_column_relation :
+  forall (FO : FieldOps) (FL : FieldLaws FO) (enc : list F -> list F) n_ext n_cols rows,
+    (forall v j, (j < n_ext)%nat -> ip v (col j (map enc rows)) = nth j (enc (rowcomb rows n_cols v)) 0) ->
+    forall wf b r idx pf a,
+      l_open_e enc wf n_cols n_ext rows b r idx = Ok pf ->
+      l_check_e enc wf n_cols (map enc rows) a b (ip (lf_v pf) a) pf r idx = Ok true.
+Proof. exact @lincode_complete. Qed.
+Print Assumptions C10_lincode_complete_from_column_relation.
+
+Theorem C10_generator_matrix_column_relation :
+  forall (FO : FieldOps) (FL : FieldLaws FO) G n_ext n_cols rows v j,
+    Forall (fun r => length r = n_cols) rows -> (j < n_ext)%nat ->
+    ip v (col j (map (mat_enc G n_ext) rows)) = nth j (mat_enc G n_ext (rowcomb rows n_cols v)) 0.
+Proof. exact @mat_enc_cols. Qed.
+Print Assumptions C10_generator_matrix_column_relation.
